@@ -17,7 +17,7 @@ RULE = ("executable programs over the harness native gate set (1-,2-,3-qubit, sy
 ASSUMPTIONS = ["harness native gate set and its matrices (vf/gateset_sig.py)", "reference executor vf/refexec.py",
                "programs rejected by the emulator with JaqalError are judged by C12/C13/C14, not here"]
 TIERS = {"quick": {"shards": 8, "budget_s": 50}, "thorough": {"shards": 16, "budget_s": 420}}
-REQUIRE = {"keyword-calls-in-another-order": 500, "gate-set-variant:B": 100, "gate-set-variant:A": 100, "states-compared": 300, "gate:2q-asym": 50, "gate:3q": 20, "via-alias": 100, "via-macro": 50, "override-used": 30,
+REQUIRE = {"busy-gates-with-unitary-inserted": 300, "keyword-calls-in-another-order": 500, "gate-set-variant:B": 100, "gate-set-variant:A": 100, "states-compared": 300, "gate:2q-asym": 50, "gate:3q": 20, "via-alias": 100, "via-macro": 50, "override-used": 30,
            "loop-in-section": 30, "probe:basis": 50}
 ATOL = 1e-9
 
@@ -176,6 +176,29 @@ def process(ctx, case, seen):
         rec.violation(sig("C03", clause, feats), d2[0][1] if d2 else detail, small_case)
 
 
+def insert_busy(rng, prog):
+    """Put a call of the busy native gate (a BusyGateDefinition that has an ideal unitary, e.g. a global entangling
+    pulse) into the top-level sequence of some prepare/measure sections."""
+    reg = [s for s in prog[1:] if s[0] == "register"]
+    if len(reg) != 1 or not isinstance(reg[0][2], int) or reg[0][2] < 2:
+        return prog, 0
+    name, n = reg[0][1], reg[0][2]
+    out = []
+    k = 0
+    open_ = False
+    for s in prog[1:]:
+        out.append(s)
+        if s == ("gate", "prepare_all"):
+            open_ = True
+        elif s == ("gate", "measure_all"):
+            open_ = False
+        if open_ and s[0] not in sx.HEADER and s[0] != "macro" and rng.random() < 0.4:
+            i, j = rng.sample(range(n), 2)
+            out.append(("gate", "GZZ", ("array_item", name, i), ("array_item", name, j), rng.choice([0.3, 1.1, -2.2, 1.5707963267948966])))
+            k += 1
+    return ("circuit",) + tuple(out), k
+
+
 def basis_probe(rng, maxn):
     """X-only program through an alias chain: a bit-order or alias error moves the single 1."""
     g = gen.ExecGen(rng, reg_size=(2, maxn), n_maps=(1, 4), n_macros=(0, 0), allow_macros=False, n_lets=(0, 2))
@@ -212,6 +235,9 @@ def shard(ctx):
             g = gen.ExecGen(rng, reg_size=(size, size), max_depth=rng.choice([1, 2, 3]), body_len=(1, 3),
                             n_maps=(0, 4), n_macros=(0, 3), p_let_reg=0.2, p_let_arg=0.5)
             prog = g.program()
+            if rng.random() < 0.3:
+                prog, nb = insert_busy(rng, prog)
+                rec.count("busy-gates-with-unitary-inserted", nb)
             case = {"prog": prog}
             if rng.random() < 0.3:
                 ov = make_override(rng, prog)
